@@ -250,6 +250,84 @@ Definition sender_is_participant (p : payload) (sender : tok) (r : request) : bo
                 match tget (p_ids p) sender with Some id => Z.eqb id pid | None => false end
   end.
 
+(* the lazy restart of a signing round found in a cancelled state: Do(restart) on the live
+   instance, persisted at once *)
+Definition pm_restart (now : Z) (m : message) (h : hs) (inst : instance) : res instance :=
+  match do_live inst ev_sgn_restart (RDefault now) with
+  | FOk i' _ _ => ROk (save_fsm h (m_round m) (dump_of i')) i'
+  | FErr => RErr h
+  | FPanic => RPanic
+  end.
+
+(* a proposal is also recorded next to the signatures; then the round is persisted *)
+Definition pm_prop (m : message) (req : request) (h : hs) (i4 : instance) (op : option operation)
+  : res (option operation) :=
+  let prop : res unit :=
+    if String.eqb (m_event m) ev_sgn_start then
+      match m_tasks m, req with
+      | Some tasks, RStart batch _ _ _ src =>
+          match save_signatures (emit h (WSrc src tasks))
+                  (map (fun t => {| rs_file := mt_file t; rs_batch := batch; rs_msgid := mt_id t;
+                                    rs_payload := mt_payload t; rs_sig := 0%N;
+                                    rs_user := m_sender m; rs_round := m_round m |}) tasks) with
+          | ROk h' _ => ROk h' tt
+          | RErr h' => RErr h'
+          | RPanic => RPanic
+          end
+      | _, _ => RErr h
+      end
+    else ROk h tt in
+  match prop with
+  | RPanic => RPanic
+  | RErr h => RErr h
+  | ROk h _ => ROk (save_fsm h (m_round m) (dump_of i4)) op
+  end.
+
+(* from the FSM call onwards *)
+Definition pm_tail (now : Z) (m : message) (req : request) (h : hs) (inst : instance)
+  : res (option operation) :=
+  if negb (sender_is_participant (i_payload inst) (m_sender m) req) then RErr h else
+  match do_live inst (m_event m) req with
+  | FErr => RErr h
+  | FPanic => RPanic
+  | FOk i1 r1 x1 =>
+    (* manual hand-overs *)
+    let s2 := if String.eqb r1 st_collected then do_fresh (dump_of i1) ev_dkg_init (RDefault now) else FOk i1 r1 x1 in
+    match s2 with
+    | FErr => RErr h | FPanic => RPanic
+    | FOk i2 r2 x2 =>
+      let s3 := if String.eqb r2 st_master_collected then do_fresh (dump_of i2) ev_sgn_init (RDefault now) else FOk i2 r2 x2 in
+      match s3 with
+      | FErr => RErr h | FPanic => RPanic
+      | FOk i3 r3 x3 =>
+        (* operation for the airgapped machine, or reconstruction + broadcast *)
+        let op := if mem_str r3 op_states then
+                    match x3 with
+                    | Some _ => Some {| op_round := m_round m; op_type := r3; op_payload := x3; op_reinit := None; op_extra := 0%N |}
+                    | None => None
+                    end
+                  else None in
+        if String.eqb r3 st_partial_collected then
+          match x3 with
+          | Some (RespSigningProcess batch src parts) =>
+              match reconstruct (h_st h) (m_round m) (i_payload i3) batch src parts with
+              | Some sigs =>
+                  let h' := emit h (WSend {| o_round := m_round m; o_event := ev_sig_reconstructed;
+                                             o_sender := ns_user (h_st h); o_recipient := 0%N;
+                                             o_sigs := sigs; o_data := 0%N |}) in
+                  match do_fresh (dump_of i3) ev_sgn_restart (RDefault now) with
+                  | FErr => RErr h' | FPanic => RPanic
+                  | FOk i4 _ _ => pm_prop m req h' i4 op
+                  end
+              | None => RErr h
+              end
+          | _ => RErr h
+          end
+        else pm_prop m req h i3 op
+      end
+    end
+  end.
+
 (* processMessage: returns the operation to put into the pool, if any *)
 Definition process_message (now : Z) (h0 : hs) (m : message) : res (option operation) :=
   match get_instance h0 (m_round m) true with
@@ -281,15 +359,9 @@ Definition process_message (now : Z) (h0 : hs) (m : message) : res (option opera
                          | Some dk => existsb (fun x => match dp_error (snd x) with Some _ => true | None => false end) (dc_quorum dk)
                          | None => false end in
     if has_suffix (i_dstate inst) "_error" && dkg_has_error then ROk h None else
-    let restart (h : hs) (inst : instance) : res instance :=
-      match do_live inst ev_sgn_restart (RDefault now) with
-      | FOk i' _ _ => ROk (save_fsm h (m_round m) (dump_of i')) i'
-      | FErr => RErr h
-      | FPanic => RPanic
-      end in
     let step4 : res instance :=
       if has_suffix (i_dstate inst) "_error" && (match p_sgn p with Some _ => true | None => false end)
-      then restart h inst else ROk h inst in
+      then pm_restart now m h inst else ROk h inst in
     match step4 with
     | RPanic => RPanic
     | RErr h => RErr h
@@ -298,84 +370,14 @@ Definition process_message (now : Z) (h0 : hs) (m : message) : res (option opera
       if has_suffix st5 "_timeout" && (has_prefix st5 "state_sig_" || has_prefix st5 "state_dkg") then ROk h None else
       let step5 : res instance :=
         if has_suffix st5 "_timeout" && has_prefix st5 "state_signing_"
-        then (match p_sgn (i_payload inst) with Some _ => restart h inst | None => RPanic end)
+        then (match p_sgn (i_payload inst) with Some _ => pm_restart now m h inst | None => RPanic end)
         else ROk h inst in
       match step5 with
       | RPanic => RPanic
       | RErr h => RErr h
       | ROk h inst =>
         match m_req m with
-        | MFsm req =>
-          if negb (sender_is_participant (i_payload inst) (m_sender m) req) then RErr h else
-          match do_live inst (m_event m) req with
-          | FErr => RErr h
-          | FPanic => RPanic
-          | FOk i1 r1 x1 =>
-            (* manual hand-overs *)
-            let s2 := if String.eqb r1 st_collected then do_fresh (dump_of i1) ev_dkg_init (RDefault now) else FOk i1 r1 x1 in
-            match s2 with
-            | FErr => RErr h | FPanic => RPanic
-            | FOk i2 r2 x2 =>
-              let s3 := if String.eqb r2 st_master_collected then do_fresh (dump_of i2) ev_sgn_init (RDefault now) else FOk i2 r2 x2 in
-              match s3 with
-              | FErr => RErr h | FPanic => RPanic
-              | FOk i3 r3 x3 =>
-                (* operation for the airgapped machine, or reconstruction + broadcast *)
-                let op := if mem_str r3 op_states then
-                            match x3 with
-                            | Some _ => Some {| op_round := m_round m; op_type := r3; op_payload := x3; op_reinit := None; op_extra := 0%N |}
-                            | None => None
-                            end
-                          else None in
-                let recon : res unit :=
-                  if String.eqb r3 st_partial_collected then
-                    match x3 with
-                    | Some (RespSigningProcess batch src parts) =>
-                        match reconstruct (h_st h) (m_round m) (i_payload i3) batch src parts with
-                        | Some sigs =>
-                            ROk (emit h (WSend {| o_round := m_round m; o_event := ev_sig_reconstructed;
-                                                  o_sender := ns_user (h_st h); o_recipient := 0%N;
-                                                  o_sigs := sigs; o_data := 0%N |})) tt
-                        | None => RErr h
-                        end
-                    | _ => RErr h
-                    end
-                  else ROk h tt in
-                match recon with
-                | RPanic => RPanic
-                | RErr h => RErr h
-                | ROk h _ =>
-                  let s4 := if String.eqb r3 st_partial_collected
-                            then do_fresh (dump_of i3) ev_sgn_restart (RDefault now) else FOk i3 r3 x3 in
-                  match s4 with
-                  | FErr => RErr h | FPanic => RPanic
-                  | FOk i4 _ _ =>
-                    (* the proposal is also recorded next to the signatures *)
-                    let prop : res unit :=
-                      if String.eqb (m_event m) ev_sgn_start then
-                        match m_tasks m, m_req m with
-                        | Some tasks, MFsm (RStart batch _ _ _ src) =>
-                            match save_signatures (emit h (WSrc src tasks))
-                                    (map (fun t => {| rs_file := mt_file t; rs_batch := batch; rs_msgid := mt_id t;
-                                                      rs_payload := mt_payload t; rs_sig := 0%N;
-                                                      rs_user := m_sender m; rs_round := m_round m |}) tasks) with
-                            | ROk h' _ => ROk h' tt
-                            | RErr h' => RErr h'
-                            | RPanic => RPanic
-                            end
-                        | _, _ => RErr h
-                        end
-                      else ROk h tt in
-                    match prop with
-                    | RPanic => RPanic
-                    | RErr h => RErr h
-                    | ROk h _ => ROk (save_fsm h (m_round m) (dump_of i4)) op
-                    end
-                  end
-                end
-              end
-            end
-          end
+        | MFsm req => pm_tail now m req h inst
         | _ => RErr h
         end
       end
